@@ -14,11 +14,19 @@
       lists duplicate-free (the hypotheses of the sensitivity theorems);
     - the interpreter model with the signature opcodes of model/CheckSig.v over the oracle table
       returns the observed verdict for every input of the signed transaction (accept) and for the
-      signed input of every mutant; the encoding hypotheses of [signed_p2pkh_accepts] hold. *)
+      signed input of every mutant; the encoding hypotheses of [signed_p2pkh_accepts] hold;
+    - the SIGNING model (model/Sign.v: unlocker.Simple.UnlockingScript, FillInput, FillAllInputs) replayed with the
+      very calls the harness made (entry point and requested SigHashFlags per input, 0 = default) on the
+      transaction with its unlocking scripts erased, over a signer that answers with the signature go-bk made for
+      the digest THE MODEL computes (looked up in the oracle table, where it must verify), yields the
+      library-signed transaction byte for byte; per input the predicted hash-type byte (the defaulted type) and
+      the script SHAPE (two pushes: len(sig)+1 bytes ending in that byte, then the 33-byte key) are what the
+      library produced. *)
 From Coq Require Import String List NArith ZArith Bool.
 From Coq Require Import Strings.Byte.
 From GoBT Require Import lib.Bytes lib.Hex lib.Sha256 lib.Ripemd160 model.Tx spec.DigestSpec spec.CommitSpec model.SigHash
-  model.SigHashWire model.TxMutate model.ScriptNum model.Interp model.CheckSig proofs.P2PKHProofs corr.Corr.
+  model.SigHashWire model.TxMutate model.ScriptNum model.Interp model.CheckSig model.Push model.Sign
+  proofs.SigHashProofs proofs.P2PKHProofs proofs.SignProofs corr.Corr.
 Import ListNotations.
 Local Open Scope N_scope. Local Open Scope bool_scope.
 
@@ -28,8 +36,10 @@ Record mut_obs := mkMut {
   mo_accept : bool         (* interpreter verdict on the signed input of the mutant *)
 }.
 
-(** one signed input: position, compressed public key, DER signature (without the hash-type byte) *)
-Record signed_in := mkSigned { si_idx : N; si_pk : bytes; si_sig : bytes }.
+(** one signed input: position, compressed public key, DER signature (without the hash-type byte), the SigHashFlags
+    value the harness handed to the library (0 = left at the default) and the entry point it called:
+    0 Tx.FillInput, 1 unlocker.Simple.UnlockingScript directly + Tx.InsertInputUnlockingScript, 2 Tx.FillAllInputs *)
+Record signed_in := mkSigned { si_idx : N; si_pk : bytes; si_sig : bytes; si_req : N; si_path : N }.
 
 Record case := mkCase {
   k_tx : tx;               (* the signed transaction; every input records its previous output *)
@@ -155,6 +165,72 @@ Definition enc_ok (flags : N) (t : tx) (ht : N) (tested : nat) (s : signed_in) :
       end
   end.
 
+(** ** the signing path, replayed on the model *)
+
+(** the key as the correspondence knows it: its public key, and for a digest the signature go-bk made - the
+    table entry (key, signature, digest) that VERIFIES; a digest the library did not sign has no entry *)
+Fixpoint find_sig (tbl : list (bytes * bytes * bytes * bool)) (pk h : bytes) : option bytes :=
+  match tbl with
+  | [] => None
+  | (p, s, d, r) :: rest => if bytes_eqb p pk && bytes_eqb d h && r then Some s else find_sig rest pk h
+  end.
+Definition table_signer (k : case) (pk : bytes) : signer := mkSigner pk (fun h => find_sig (k_ver k) pk h).
+
+Definition sg_bind {A B} (x : sign_res A) (f : A -> sign_res B) : sign_res B :=
+  match x with SgOk a => f a | SgErr e => SgErr e | SgPanic => SgPanic | SgFatal => SgFatal | SgFuel => SgFuel end.
+
+(** one call of the harness *)
+Definition sign_step (k : case) (acc : sign_res tx) (s : signed_in) : sign_res tx :=
+  sg_bind acc (fun t =>
+    let sg := table_signer k (si_pk s) in
+    if si_path s =? 0 then fill_input (Some sg) t (si_idx s) (si_req s)
+    else sg_bind (unlocking_script sg t (si_idx s) (si_req s)) (fun u => insert_input_unlocking_script t (si_idx s) u)).
+
+Definition opt_bytes_eqb (a b : option bytes) : bool :=
+  match a, b with Some x, Some y => bytes_eqb x y | None, None => true | _, _ => false end.
+
+(** the harness' UnlockerGetter: the key of the (first) signed input that spends this script *)
+Definition key_of_case (k : case) (prev : option bytes) : option signer :=
+  match find (fun s => match nthN (tx_ins (k_tx k)) (si_idx s) with
+                       | Some inp => opt_bytes_eqb (in_script inp) prev | None => false end) (k_signed k) with
+  | Some s => Some (table_signer k (si_pk s))
+  | None => None
+  end.
+
+Definition model_signed (k : case) : sign_res tx :=
+  let t0 := erase_unlocks (k_tx k) in
+  if forallb (fun s => si_path s =? 2) (k_signed k)
+  then fill_all_inputs (simple_getter (key_of_case k)) t0
+  else fold_left (sign_step k) (k_signed k) (SgOk t0).
+
+(** the predicted type byte and the shape of what the library stored in the input *)
+Definition shape_ok (k : case) (s : signed_in) : bool :=
+  let ht' := default_type (si_req s) in
+  (ht' =? k_ht k) && (si_req s <? 256) && (si_path s <? 3) &&
+  match nthN (tx_ins (k_tx k)) (si_idx s) with
+  | None => false
+  | Some inp =>
+      let u := in_unlock inp in
+      match decode_parts u with
+      | DOk [full; pk] =>
+          Nat.eqb (length full) (length (si_sig s) + 1) && Nat.eqb (length pk) 33 && bytes_eqb pk (si_pk s) &&
+          bytes_eqb full (si_sig s ++ [n2b ht']) &&
+          Nat.eqb (length u) (1 + length full + 1 + 33) &&          (* two DIRECT pushes *)
+          match carried_hash_type u, carried_signature u with
+          | Some b, Some sg => (b =? ht') && bytes_eqb sg (si_sig s)
+          | _, _ => false
+          end
+      | _ => false
+      end
+  end.
+
+Definition check_signing (k : case) : bool :=
+  match model_signed k with
+  | SgOk t => bytes_eqb (tx_bytes true t) (tx_bytes true (k_tx k)) &&
+              Nat.eqb (length (tx_ins t)) (length (k_signed k))
+  | _ => false
+  end && forallb (shape_ok k) (k_signed k).
+
 Definition check_mut (k : case) (orc : sig_oracle) (pre : sres) (mo : mut_obs) : bool :=
   let ctx := sign_ctx_of (k_tx k) (k_idx k) in
   let '(t', i') := apply_tx (mo_m mo) (k_tx k) (k_idx k) in
@@ -170,7 +246,7 @@ Definition check_mut (k : case) (orc : sig_oracle) (pre : sres) (mo : mut_obs) :
 Definition check (k : case) : bool :=
   let orc := table_oracle k in
   let pre := model_preimage (k_tx k) (k_idx k) (k_ht k) in
-  sha_is pre (k_pre_sha k) && nodup_b (tx_outs (k_tx k)) &&
+  sha_is pre (k_pre_sha k) && nodup_b (tx_outs (k_tx k)) && check_signing k &&
   forallb (fun s => enc_ok (k_flags k) (k_tx k) (k_ht k) (k_idx k) s &&
                     verdict_is (run_model orc (k_tx k) (si_idx s) (k_flags k)) true) (k_signed k) &&
   forallb (check_mut k orc pre) (k_muts k).
